@@ -4,6 +4,7 @@ CONSTANTS
   ImrVals <- ImrFull
   MaxDepth = 40
   MaxNest = 2
+  PcMod = 0
   AckOnReturn = FALSE
   RecordActs = TRUE
 INVARIANT DeliverOnlyIfEnabled
